@@ -4,10 +4,10 @@ import AbraProofs.Lemmas.HeapIso
 # C09 — channels deliver each value once, in order, as a valid independent copy; a read suspends only the reader
 
 Order/once/blocking: theorems about the scheduler model `Abra.Sched` for every thread step function and
-every embedder schedule.  Copy validity: theorems about the value/heap model `Abra.Heap` — `ChannelWrite`
-stores the raw `Value` (a pointer into the writer's heap), `ChannelRead` deep-copies at read time — with
-the full statement refuted by two witnesses (known finding D23) and proved under the hypothesis that the
-written object graph is neither mutated nor reclaimed between write and read.
+every embedder schedule.  Copy validity: theorems about the value/heap model `Abra.Heap` after fix 97d7808 of
+defect D23 — `ChannelWrite` takes a snapshot of the written value (a `Message` owned by the queue),
+`ChannelRead` rebuilds it on the reader's heap — proved without any hypothesis on what the writer does after
+the write; the two witnesses of the old copy-at-read behaviour are kept, labelled historical.
 -/
 namespace Abra.Sched
 variable {T V E : Type}
@@ -89,10 +89,10 @@ end Abra.Sched
 
 namespace Abra.Heap
 
-theorem deepCopy_unpack' {f : Nat} {H : Heaps} {t : Nat} {v v' : Val} {H' : Heaps}
-    (h : chanReceive f H t v = some (v', H')) : ∃ M', deepCopyM f H H [] t v = some (v', H', M') := by
-  unfold chanReceive deepCopy at h
-  cases hc : deepCopyM f H H [] t v with
+theorem chanReceive_unpack {f : Nat} {Hw Hr : Heaps} {t : Nat} {v v' : Val} {H' : Heaps}
+    (h : chanReceive f Hw Hr t v = some (v', H')) : ∃ M', deepCopyM f Hw Hr [] t v = some (v', H', M') := by
+  unfold chanReceive at h
+  cases hc : deepCopyM f Hw Hr [] t v with
   | none => simp [hc] at h
   | some r =>
     obtain ⟨a, b, c⟩ := r
@@ -100,64 +100,82 @@ theorem deepCopy_unpack' {f : Nat} {H : Heaps} {t : Nat} {v v' : Val} {H' : Heap
     obtain ⟨rfl, rfl⟩ := h
     exact ⟨c, rfl⟩
 
-/-- **Scalars.**  For scalar payloads (int, float, bool) the received value is the written value,
-    unconditionally: nothing is dereferenced. -/
-theorem C09_chan_copy_scalar (f : Nat) (H : Heaps) (t : Nat) (v : Val)
+/-- **Scalars.**  For scalar payloads (int, float, bool) the received value is the written value: nothing is
+    dereferenced, nothing allocated. -/
+theorem C09_chan_copy_scalar (f : Nat) (Hw Hr : Heaps) (t : Nat) (v : Val)
     (hv : (∃ n, v = .int n) ∨ (∃ b, v = .float b) ∨ (∃ b, v = .bool b)) :
-    chanReceive (f + 1) H t v = some (v, H) := by
+    chanReceive (f + 1) Hw Hr t v = some (v, Hr) := by
   rcases hv with ⟨n, rfl⟩ | ⟨b, rfl⟩ | ⟨b, rfl⟩ <;> rfl
 
-/-- **Heap payloads, under the hypothesis that excludes D23.**  `Hw` = heaps when the value was written,
-    `Hr` = heaps when it is read.  If every object reachable from the written value is the same at read
-    time (neither mutated nor reclaimed in between), the reader receives a value that renders exactly as
-    the written value did at write time, and everything reachable from it lives in the reader's heap
-    (an independent copy). -/
-theorem C09_chan_copy_valid_partial (f g : Nat) (Hw Hr : Heaps) (t : Nat) (v v' : Val) (H' : Heaps) (tr : Tree)
-    (xs : List Addr)
-    (hwr : render g Hw v = some tr) (hxs : addrs g Hw v = some xs)
-    (hsame : ∀ a ∈ xs, lookup Hr a = lookup Hw a)
-    (hrecv : chanReceive f Hr t v = some (v', H')) :
-    render g H' v' = some tr ∧ ∀ w' x, ReachV H' v' w' → ptr? w' = some x → x.tid = t := by
-  have hr : render g Hr v = some tr := by rw [render_congr g v xs hxs hsame]; exact hwr
-  obtain ⟨M, hm⟩ := deepCopy_unpack' hrecv
-  obtain ⟨p, hv⟩ := deepCopyM_post Hr t f Hr [] v v' H' M hm
+/-- **A read returns the value as it was when written — isolation at write time.**  `Hw` = the heaps when the
+    value was written, `Hr` = the heaps when it is read: ANY heaps — the writer may have stored into the written
+    objects, collected them, or be gone altogether; no hypothesis relates `Hr` to `Hw`.  What the reader gets is
+    an isomorphic copy of the graph AS WRITTEN: the result is the image of the written value under a map `M`,
+    every copied object holds the image of the object of `Hw` it copies, `M` is injective (sharing and cycles
+    kept exactly), everything reachable from the written value was copied and nothing else is reachable from the
+    result; every object of the result was allocated by this read in the reader's heap (it did not exist
+    before), and no existing object of `Hr` is changed. -/
+theorem C09_chan_snapshot_at_write (f : Nat) (Hw Hr : Heaps) (t : Nat) (v v' : Val) (H' : Heaps)
+    (hrecv : chanReceive f Hw Hr t v = some (v', H')) :
+    ∃ M, mapVal? M v = some v' ∧ Iso Hw H' t M ∧ Ext Hr H' ∧
+      (∀ w, ReachV Hw v w → ∃ w', mapVal? M w = some w') ∧
+      (∀ w', ReachV H' v' w' → ∃ w, ReachV Hw v w ∧ mapVal? M w = some w') ∧
+      (∀ w' x, ReachV H' v' w' → ptr? w' = some x → lookup Hr x = none ∧ x.tid = t) := by
+  obtain ⟨M, hm⟩ := chanReceive_unpack hrecv
+  obtain ⟨p, hv⟩ := deepCopyM_post Hw t f Hr [] v v' H' M hm
   have iso := iso_of_post p
-  exact ⟨iso_render iso g v v' tr hv hr, iso_owned iso hv⟩
+  refine ⟨M, hv, iso, p.ext, iso_cover iso hv, iso_onto iso hv, ?_⟩
+  intro w' x hw' hx
+  obtain ⟨w, _, hmw⟩ := iso_onto iso hv w' hw'
+  cases hp : ptr? w with
+  | none =>
+    simp only [mapVal?, hp, Option.some.injEq] at hmw
+    rw [← hmw, hp] at hx; cases hx
+  | some a =>
+    simp only [mapVal?, hp] at hmw
+    obtain ⟨a', e1, e2, e3, _⟩ := p.fresh a w' hmw rfl
+    rw [hx] at e1; cases e1
+    exact ⟨lookup_none_of_ge Hr x (by rw [e2]; exact e3), e2⟩
 
-/-- the same for arbitrary (shared, cyclic) payloads: if the reader finds the written graph unchanged, what it
-    receives is an isomorphic copy of the graph as it was written (same reachable values, object by object the
-    image of the written object), owned by the reader. -/
-theorem C09_chan_copy_graph_partial (f : Nat) (Hw Hr : Heaps) (t : Nat) (v v' : Val) (H' : Heaps)
-    (hsame : ∀ w x, ReachV Hw v w → ptr? w = some x → lookup Hr x = lookup Hw x)
-    (hrecv : chanReceive f Hr t v = some (v', H')) :
-    ∃ M, mapVal? M v = some v' ∧ Iso Hr H' t M ∧ (∀ w, ReachV Hw v w ↔ ReachV Hr v w) ∧
-      (∀ w x, ReachV Hw v w → ptr? w = some x → lookup Hr x = lookup Hw x) ∧
-      ∀ w' x, ReachV H' v' w' → ptr? w' = some x → x.tid = t := by
-  obtain ⟨M, hm⟩ := deepCopy_unpack' hrecv
-  obtain ⟨p, hv⟩ := deepCopyM_post Hr t f Hr [] v v' H' M hm
-  have iso := iso_of_post p
-  exact ⟨M, hv, iso, reach_congr hsame, hsame, iso_owned iso hv⟩
+/-- … in particular a value that rendered as `tr` when it was written is received rendering as `tr`, whatever
+    happened to the writer's heap in between. -/
+theorem C09_chan_copy_valid (f g : Nat) (Hw Hr : Heaps) (t : Nat) (v v' : Val) (H' : Heaps) (tr : Tree)
+    (hwr : render g Hw v = some tr) (hrecv : chanReceive f Hw Hr t v = some (v', H')) :
+    render g H' v' = some tr := by
+  obtain ⟨M, hv, iso, _, _, _, _⟩ := C09_chan_snapshot_at_write f Hw Hr t v v' H' hrecv
+  exact iso_render iso g v v' tr hv hwr
+
+/-- the read always succeeds on a well-formed written graph, with fuel = number of written objects + 1 -/
+theorem C09_chan_receive_total (Hw Hr : Heaps) (t : Nat) (v : Val) (L : List Addr) (hwf : WF Hw v)
+    (hL : ∀ w a, ReachV Hw v w → ptr? w = some a → a ∈ L) :
+    ∃ r, chanReceive (L.length + 1) Hw Hr t v = some r := by
+  obtain ⟨r, hr⟩ := deepCopyM_total Hw t (L.length + 1) Hr [] v L hwf (fun w a hw ha _ => hL w a hw ha) (Nat.lt_succ_self _)
+  exact ⟨(r.1, r.2.1), by simp [chanReceive, hr]⟩
 
 /-- heaps in which thread 1 owns one struct `{ v: 1 }` -/
 def wH : Heaps := fun t => if t = 1 then [.struct [.int 1]] else []
 def wV : Val := .struct ⟨1, 0⟩
 
-example : render 3 wH wV = some (.struct [.int 1]) ∧ addrs 3 wH wV = some [⟨1, 0⟩] ∧
-    ∃ p, chanReceive 3 wH 0 wV = some p := ⟨rfl, rfl, _, rfl⟩
+/-- the two situations of the former defect D23, now harmless: the writer stores into the written struct after
+    the write (`c.write(b); b.v = 2; c.read().v` is 1), or the writer is gone before the read -/
+example :
+    (∃ H', chanReceive 3 wH (setSlot wH ⟨1, 0⟩ 0 (.int 2)) 0 wV = some (.struct ⟨0, 0⟩, H') ∧
+      lookup H' ⟨0, 0⟩ = some (.struct [.int 1])) ∧
+    (∃ H', chanReceive 3 wH (dropThread wH 1) 0 wV = some (.struct ⟨0, 0⟩, H') ∧
+      lookup H' ⟨0, 0⟩ = some (.struct [.int 1])) := ⟨⟨_, rfl, rfl⟩, ⟨_, rfl, rfl⟩⟩
 
-/-- **Finding D23, witness 1 (mutation after the write).**  `c.write(b); b.v = 2; c.read().v`: the reader
-    (thread 0) receives `{ v: 2 }` although `{ v: 1 }` was written. -/
-theorem C09_chan_copy_mutated_counterexample :
-    ∃ v' H', chanReceive 3 (setSlot wH ⟨1, 0⟩ 0 (.int 2)) 0 wV = some (v', H') ∧
+/-- HISTORICAL (before fix 97d7808, defect D23): copying at read time, the reader saw `{ v: 2 }` although
+    `{ v: 1 }` was written … -/
+theorem C09_prerepair_mutated_witness :
+    ∃ v' H', chanReceiveOld 3 (setSlot wH ⟨1, 0⟩ 0 (.int 2)) 0 wV = some (v', H') ∧
       v' = .struct ⟨0, 0⟩ ∧ lookup H' ⟨0, 0⟩ = some (.struct [.int 2]) ∧
       lookup wH ⟨1, 0⟩ = some (.struct [.int 1]) :=
   ⟨_, _, rfl, rfl, rfl, rfl⟩
 
-/-- **Finding D23, witness 2 (the writer finished before the read).**  The writer's heap is freed with
-    the thread; the read dereferences the dangling pointer — in the model a fault, in the real code a
-    read of freed memory. -/
-theorem C09_chan_copy_reclaimed_counterexample :
-    chanReceive 3 (dropThread wH 1) 0 wV = none ∧ ∃ p, chanReceive 3 wH 0 wV = some p :=
+/-- … and HISTORICAL: with the writer finished before the read the pointer dangled (a fault in the model, a
+    read of freed memory in the code). -/
+theorem C09_prerepair_reclaimed_witness :
+    chanReceiveOld 3 (dropThread wH 1) 0 wV = none ∧ ∃ p, chanReceiveOld 3 wH 0 wV = some p :=
   ⟨rfl, _, rfl⟩
 
 end Abra.Heap
